@@ -831,6 +831,23 @@ void relay_threaded_case(Ctx& c, Rng& r, bool resources) {
         }
         c.note("threaded.runs");
 
+        // Completeness is an "eventually, while both stay connected" statement.  The drain above ends when nothing observable is
+        // pending; to keep kernel latency the harness cannot observe from ever turning into a verdict, a direction that still
+        // misses its END marker gets more (bounded) time before it is judged: only bytes that never arrive are a loss.
+        auto some_direction_incomplete = [&] {
+            for (int x = 0; x < n; ++x) for (int y = 0; y < n; ++y) {
+                if (x == y || cl[x].closed || cl[y].closed || !cl[y].sent_end || cl[x].send_failed || cl[y].send_failed) continue;
+                if (cl[x].rx.find("<" + std::to_string(y) + ":") == std::string::npos) continue;
+                if (cl[x].rx.find(t_end(cl[y])) == std::string::npos) return true;
+            }
+            return false;
+        };
+        for (int retry = 0; retry < 100 && some_direction_incomplete(); ++retry) {
+            c.note("threaded.settle-retries");
+            ::usleep(100000);
+            drain();
+            if (!some_direction_incomplete()) c.note("threaded.late-deliveries-resolved-by-waiting");
+        }
         // ---- attribution (C25)
         std::size_t bridges = 0;
         for (int x = 0; x < n; ++x) {
